@@ -487,7 +487,7 @@ def match_bounded_finding(findings, b, f):
 
 
 TRUSTED_BASE = [
-    "text tier (only where a check executes string code symbolically: C06-C08, C10, C17): the split lemma and the blindness lemma of pyvc/textlex.py are argued in prose in that module, their hypotheses are discharged by z3's regular-language theory at every use; CPython axioms: %0Nd of an int in 0..10^N-1 prints its N-digit spelling, str(n) of n >= 0 is a non-empty ASCII digit run and int(str(n)) == n, float of a decimal text is the real it denotes",
+    "text tier (only where a check executes string code symbolically: C06-C08, C10, C17): the split lemma (steps machine-checked in lean/Split.lean) and the blindness lemma (prose) of pyvc/textlex.py, whose hypotheses are discharged by z3's regular-language theory at every use; the reduction of Python's backtracking matcher to 'first alternative in priority order whose language meets the form' is argued in that module; CPython axioms: %0Nd of an int in 0..10^N-1 prints its N-digit spelling, str(n) of n >= 0 is a non-empty ASCII digit run and int(str(n)) == n, float of a decimal text is the real it denotes",
     "CPython semantics as axiomatised by the PyVC engine (pyvc/*.py): int arithmetic exact, // and % floor semantics, truthiness, tuple comparison, slicing, attribute/slot model",
     "Python floats modelled as mathematical reals (SMT Real); numeric type int-vs-float of a field is not tracked, fields are modelled by value",
     "z3 5.1 / cvc5 1.0 / z3 4.8 soundness",
